@@ -316,6 +316,7 @@ func (p *parser) parseTypeAssertion(left Node) Node {
 	case nil:
 		msg := fmt.Sprintf("invalid type in type assertion of %q", left)
 		p.appendErrorForToken(msg, tok)
+		return nil
 	case ANY_TYPE:
 		p.appendErrorForToken("cannot type assert to type any", tok)
 	}
@@ -325,10 +326,7 @@ func (p *parser) parseTypeAssertion(left Node) Node {
 	if left.Type() != ANY_TYPE {
 		p.appendErrorForToken("value of type assertion must be of type any, not "+left.Type().String(), tok)
 	}
-	if t != nil {
-		t = fixedType(t)
-	}
-	return &TypeAssertion{T: t, token: tok, Left: left}
+	return &TypeAssertion{T: fixedType(t), token: tok, Left: left}
 }
 
 func isBinaryOp(tt lexer.TokenType) bool {
